@@ -36,6 +36,8 @@ type world struct {
 	holders map[string]int
 	viol    map[string]bool
 	closing bool
+	// panics of non-close roles after Close began (counted, not a C14 verdict)
+	shutdownPanics int
 	notes   []string
 }
 
@@ -147,6 +149,7 @@ var roles = []role{
 	{name: "idle", kind: 'r', fn: func(w *world) { w.db.CloseIdle() }},
 	{name: "retentionA", kind: 'r', fn: func(w *world) { w.db.RetentionRun(time.Date(2026, 9, 13, 0, 0, 1, 0, loc)) }},
 	{name: "deleteExpiredA", kind: 'r', fn: func(w *world) { w.db.DeleteExpired([]string{tA.Format("20060102")}) }},
+	{name: "deleteExpiredB", kind: 'r', fn: func(w *world) { w.db.DeleteExpired([]string{tB.Format("20060102")}) }},
 	{name: "forcedDelete", kind: 'r', fn: func(w *world) { _, _ = w.db.DeleteOldest() }},
 	{name: "close", kind: 'r', fn: func(w *world) { w.closing = true; _ = w.db.Close() }},
 }
@@ -163,6 +166,7 @@ func roleByName(n string) role {
 type scenario struct {
 	Init  string   `json:"init"` // dormant | closedA
 	Roles []string `json:"roles"`
+	Bound int      `json:"bound,omitempty"` // preemption bound this scenario is explored to
 }
 
 func (s scenario) String() string { return s.Init + ":" + strings.Join(s.Roles, "|") }
@@ -202,7 +206,19 @@ func setup(sc scenario, seq *int) sched.Harness {
 	var threads []func()
 	for _, rn := range sc.Roles {
 		r := roleByName(rn)
-		threads = append(threads, func() { r.fn(w) })
+		threads = append(threads, func() {
+			defer func() {
+				// database.Close releases every segment regardless of holders (documented: "full shutdown");
+				// what a racing writer/query does after shutdown began is outside C14. A panic before shutdown is a verdict.
+				if p := recover(); p != nil {
+					if !w.closing {
+						panic(p)
+					}
+					w.shutdownPanics++
+				}
+			}()
+			r.fn(w)
+		})
 	}
 	return sched.Harness{
 		Threads: threads,
@@ -236,16 +252,24 @@ func setup(sc scenario, seq *int) sched.Harness {
 
 // final checks quiescence: nobody holds anything.
 func (w *world) final() {
+	// a deleted segment's directory name is reused when a writer creates the same time bucket again: the path then
+	// belongs to the new (unflagged) segment object, not to the deleted one
+	reused := map[string]bool{}
+	for _, s := range w.segs {
+		if !s.State().Flagged {
+			reused[s.Suffix()] = true
+		}
+	}
 	for _, s := range w.segs {
 		st := s.State()
-		if st.RefCount != 0 {
+		if st.RefCount != 0 && w.shutdownPanics == 0 {
 			w.bad(fmt.Sprintf("leak: refCount %d at quiescence with no holder", st.RefCount))
 		}
 		if w.closing {
 			continue
 		}
 		if st.Flagged {
-			if st.DirExists {
+			if st.DirExists && !reused[s.Suffix()] {
 				w.bad("flagged segment still on disk after its last holder released it")
 			}
 			if st.Open {
@@ -276,6 +300,7 @@ func (w *world) final() {
 }
 
 type scenResult struct {
+	Bound      int            `json:"bound"`
 	Scenario   string         `json:"scenario"`
 	HarnessErr string         `json:"harness_err,omitempty"`
 	Outcomes   map[string]int `json:"outcomes"`
@@ -330,7 +355,7 @@ func runScenario(sc scenario, bound int, deadline time.Time) scenResult {
 			case "deadlock", "livelock":
 				keys = append(keys, res.Abort)
 			case "panic":
-				keys = append(keys, fmt.Sprintf("panic: %v", res.Panic))
+				keys = append(keys, sched.PanicKey(res))
 			}
 			h.Cleanup()
 			found := false
@@ -358,9 +383,14 @@ func runScenario(sc scenario, bound int, deadline time.Time) scenResult {
 
 func scenarios(thorough bool) []scenario {
 	var out []scenario
-	names := make([]string, len(roles))
-	for i, r := range roles {
-		names[i] = r.name
+	var names []string
+	for _, r := range roles {
+		// quick: queryA (a query that overlaps only A), writerC (creates a third segment), expiredRange and metrics are left
+		// to the thorough tier; they multiply the scenario count without adding a new kind of collision.
+		if !thorough && (r.name == "queryA" || r.name == "writerC" || r.name == "expiredRange" || r.name == "metrics") {
+			continue
+		}
+		names = append(names, r.name)
 	}
 	kind := func(n string) byte { return roleByName(n).kind }
 	for i := 0; i < len(names); i++ {
@@ -386,8 +416,11 @@ func scenarios(thorough bool) []scenario {
 				if names[i] == names[j] && names[j] == names[k] {
 					continue
 				}
+				if nc := strings.Count(strings.Join(t, "|"), "close"); nc > 1 {
+					continue // concurrent double Close is not a segment-lifecycle question
+				}
 				out = append(out, scenario{Init: "dormant", Roles: t})
-				if thorough || (r > 0 && (names[i] == "query" || names[i] == "queryA" || names[i] == "rotationTick")) {
+				if thorough || (r > 0 && h == 1 && (names[i] == "query" || names[i] == "rotationTick")) {
 					out = append(out, scenario{Init: "closedA", Roles: t})
 				}
 			}
@@ -399,10 +432,6 @@ func scenarios(thorough bool) []scenario {
 func main() {
 	_ = logger.Init(logger.Logging{Env: "prod", Level: "fatal"})
 	thorough := ev.Thorough()
-	bound := 2
-	if thorough {
-		bound = 3
-	}
 	var err error
 	if pf := os.Getenv("VERIF_CPUPROFILE"); pf != "" {
 		f, _ := os.Create(pf)
@@ -413,11 +442,23 @@ func main() {
 		replay(rp)
 		return
 	}
+	// quick: reduced role alphabet, every schedule with <= 2 preemptions.
+	// thorough: full role alphabet to bound 2, then the reduced alphabet again to bound 3 (as far as the budget allows;
+	// scenarios cut by the deadline are reported, exhaustive=false).
 	scs := scenarios(thorough)
+	for i := range scs {
+		scs[i].Bound = 2
+	}
+	if thorough {
+		for _, sc := range scenarios(false) {
+			sc.Bound = 3
+			scs = append(scs, sc)
+		}
+	}
 	if only := ev.Arg("--scenario"); only != "" {
 		var f []scenario
 		for _, s := range scs {
-			if s.String() == only {
+			if s.String() == only || fmt.Sprintf("%s@%d", s, s.Bound) == only {
 				f = append(f, s)
 			}
 		}
@@ -434,11 +475,20 @@ func main() {
 		}
 		defer os.RemoveAll(base)
 		deadline := time.Now().Add(budget)
+		if os.Getenv("VERIF_PHASE") == "seq" {
+			depth := 3
+			if thorough {
+				depth = 4
+			}
+			seqWorker(wi, wn, depth, deadline)
+			return
+		}
 		for i, sc := range scs {
 			if i%wn != wi {
 				continue
 			}
-			r := runScenario(sc, bound, deadline)
+			r := runScenario(sc, sc.Bound, deadline)
+			r.Bound = sc.Bound
 			b, _ := json.Marshal(r)
 			par.Emit(b)
 		}
@@ -454,6 +504,7 @@ func main() {
 	byPre := map[string]int{}
 	outcomes := map[string]int{}
 	nScen := 0
+	doneByBound, cutByBound := map[string]int{}, map[string]int{}
 	for _, b := range results {
 		var sr scenResult
 		if err := json.Unmarshal(b, &sr); err != nil {
@@ -479,12 +530,15 @@ func main() {
 			outcomes[k] += v
 		}
 		if sr.Capped {
-			r.NotExhaustive("deadline hit in scenario " + sr.Scenario)
+			r.NotExhaustive(fmt.Sprintf("deadline hit in scenario %s at bound %d", sr.Scenario, sr.Bound))
+			cutByBound[fmt.Sprint(sr.Bound)]++
+		} else {
+			doneByBound[fmt.Sprint(sr.Bound)]++
 		}
 		for _, v := range sr.Viol {
 			r.Violation(fmt.Sprintf("%s: %s", v.Scenario, v.Key), v)
 		}
-		if nScen == 3 {
+		if nScen%97 == 3 {
 			r.Sample(map[string]any{"scenario": sr.Scenario, "executions": sr.Executions, "by_preemptions": sr.ByPreempt})
 		}
 	}
@@ -493,19 +547,47 @@ func main() {
 		os.Exit(2)
 	}
 	_ = points
+	// ---- Engine O part: sequential operation histories (see seq.go)
+	seqRes, serr := par.Run(16, "VERIF_PHASE=seq")
+	if serr != nil {
+		fmt.Println("HARNESS-ERROR:", serr)
+		os.Exit(2)
+	}
+	seqHist, seqOpsN := 0, 0
+	for _, b := range seqRes {
+		var sr seqResult
+		if err := json.Unmarshal(b, &sr); err != nil {
+			fmt.Println("HARNESS-ERROR: bad seq worker result:", err)
+			os.Exit(2)
+		}
+		seqHist += sr.Histories
+		seqOpsN += sr.Ops
+		if sr.Capped {
+			r.NotExhaustive("deadline hit in the sequential-history part")
+		}
+		for k, ops := range sr.Viol {
+			r.Violation(k, map[string]any{"seq_ops": ops})
+		}
+	}
+	r.Set("sequential_histories", seqHist)
+	r.Set("sequential_operations", seqOpsN)
+	r.Set("sequential_alphabet", seqOps)
+	r.Sample(map[string]any{"sequential_history": []string{"tickRotate", "expiredQuery", "queryOverIdle"}, "judged": "after every operation and after a final idle-reclaim + retention"})
+	execs += seqHist
 	r.Set("states", execs)
 	r.Set("transitions", execs)
 	r.Set("traces_validated_against_impl", execs)
 	r.Set("evaluations", execs)
 	r.Set("distinct_nontrivial", nScen)
 	r.Set("scenarios", nScen)
-	r.Set("preemption_bound", bound)
+	r.Set("scenarios_completed_by_bound", doneByBound)
+	r.Set("scenarios_cut_by_deadline_by_bound", cutByBound)
 	r.Set("executions_by_preemptions", byPre)
 	r.Set("outcomes", outcomes)
 	r.Set("max_points_per_execution", maxPts)
 	r.Set("rule", "one execution = one complete schedule of a 3-thread scenario on the real storage code; states/transitions count executions (stateless search, no state graph is stored); distinct_nontrivial = scenarios (role triples x initial state) whose threads share segments A/B")
 	r.Assume("sequential consistency at hooked sync/atomic operations; data races are outside the cooperative scheduler's view")
-	r.Assume("3 threads, two pre-existing segments, preemption bound as reported")
+	r.Assume("3 threads, two pre-existing segments (A, B) plus on-demand C; preemption bounds as reported per scenario group")
 	r.Finish()
 }
 
@@ -524,14 +606,30 @@ func replay(p string) {
 	}
 	base, _ = os.MkdirTemp("/dev/shm", "c14r-")
 	defer os.RemoveAll(base)
+	var sq struct {
+		Artefact struct {
+			SeqOps []string `json:"seq_ops"`
+		} `json:"artefact"`
+	}
+	if json.Unmarshal(b, &sq) == nil && len(sq.Artefact.SeqOps) > 0 {
+		viol := runSeqHistory(sq.Artefact.SeqOps, 0)
+		fmt.Println("sequential history:", sq.Artefact.SeqOps)
+		fmt.Println("violations:", viol)
+		if len(viol) > 0 {
+			os.RemoveAll(base)
+			os.Exit(1)
+		}
+		return
+	}
 	seq := 0
+	sched.TraceCallers = true
 	h := setup(a.Artefact.Scenario, &seq)
 	res := sched.Run(a.Artefact.Choices, nil, 5000, h.Threads)
 	keys := h.Check(res)
 	h.Cleanup()
 	fmt.Printf("scenario %s\nabort=%q panic=%v\n", a.Artefact.Scenario, res.Abort, res.Panic)
 	for i, pt := range res.Points {
-		fmt.Printf("  %3d %s -> thread %d\n", i, pt.Sig, pt.Enabled[pt.Chosen])
+		fmt.Printf("  %3d %-28s -> T%d   %s\n", i, pt.Sig, pt.Enabled[pt.Chosen], pt.Where)
 	}
 	fmt.Println("violations:", keys)
 	if res.Stack != "" {
